@@ -309,6 +309,8 @@ KindDef(name) ==
     [] name = "Pm:4b" -> [t |-> "Pm", k |-> [id |-> "v"], q |-> ("dimsVol" :> "v" @@ "dims.vol" :> "v" @@ "dims.wt" :> "v" @@ "box.vol" :> "bad")]
     [] name = "Pm:4n" -> [t |-> "Pm", k |-> [id |-> "v"], q |-> ("dimsVol" :> "v" @@ "dims.vol" :> "v" @@ "dims.wt" :> "v" @@ "box.vol" :> "null")]
     [] name = "Pm:4a" -> [t |-> "Pm", k |-> [id |-> "v"], q |-> ("dimsVol" :> "v" @@ "dims.vol" :> "v" @@ "dims.wt" :> "v" @@ "box.vol" :> "absent")]
+    [] name = "P:2p" -> [t |-> "P", k |-> [id |-> "v"], q |-> ("dimsVol" :> "v" @@ "dims.vol" :> "pnull" @@ "dims.wt" :> "pnull" @@ "box.vol" :> "v")]
+    [] name = "Pm:2p" -> [t |-> "Pm", k |-> [id |-> "v"], q |-> ("dimsVol" :> "v" @@ "dims.vol" :> "pnull" @@ "dims.wt" :> "pnull" @@ "box.vol" :> "v")]
 AllKinds == {"S", "Smiss", "Snull", "Ka", "Kbc", "Kboth", "Kanull", "Kb",
              "N", "Nbad", "Nmiss", "Mid", "Malt", "Mmiss", "U", "T0",
              "R", "R:1b", "R:1n", "R:1a", "Rm", "Rm:1b", "Rm:1n", "Rm:1a",
@@ -322,7 +324,7 @@ AllKinds == {"S", "Smiss", "Snull", "Ka", "Kbc", "Kboth", "Kanull", "Kb",
              "S:kb", "Mid:kb", "C:vb", "Cm:vb", "Cm:bv",
              "P", "P:1b", "P:1n", "P:1a", "P:2b", "P:2n", "P:2a", "P:3b", "P:3n", "P:3a", "P:4b",
              "P:4n", "P:4a", "Pm", "Pm:1b", "Pm:1n", "Pm:1a", "Pm:2b", "Pm:2n", "Pm:2a", "Pm:3b",
-             "Pm:3n", "Pm:3a", "Pm:4b", "Pm:4n", "Pm:4a"}
+             "Pm:3n", "Pm:3a", "Pm:4b", "Pm:4n", "Pm:4a", "P:2p", "Pm:2p"}
 \* (a constant table: TLC evaluates it once, instead of scanning the CASE at every use)
 KindTab == [kn \in AllKinds |-> KindDef(kn)]
 Kind(name) == KindTab[name]
@@ -359,6 +361,10 @@ KeyIdx(r, kd, i) == IF \E f \in r.f : f \in DOMAIN kd.k /\ kd.k[f] = "v" THEN i 
 \* can the values representation kd carries be coerced to its required fields?
 ReqOK(kd) == \A j \in 1..Len(Req(kd.t)) :
                LET rq == Req(kd.t)[j] IN kd.q[rq.f] = "v" \/ (~rq.nn /\ kd.q[rq.f] \in {"null", "absent"})
+\* (round 4b) status "pnull" of a nested path: the representation carries `"<parent>": null`, so every
+\* path under that parent is unavailable - a malformed required value of THAT representation
+\* (not "v" / "null" / "absent": ReqOK fails, Populate / PsIdeal give no value), like "bad"
+ParentNull(kd) == \E f \in DOMAIN kd.q : kd.q[f] = "pnull"
 \* the index the echoed @requires values name (0: the representation carries none)
 WIdx(kd, i) == IF \E f \in DOMAIN kd.q : kd.q[f] = "v" THEN i ELSE 0
 \* THE REQUIRES-POPULATION STEP (resolveEntity inline / the populator / the zip of
@@ -604,7 +610,10 @@ EntityReturn(i) ==
                IF ~ReqOK(K(i))
                  THEN \* a required value does not coerce: inline `return nil, err`, the explicit populator's
                       \* error, or (computed_requires) the error of the non-null field's resolver
-                      errs' = errs + 1 /\ UNCHANGED <<recs, list>>
+                      \* (round 4b) "pnull": the PARENT object of a nested path is null - the inline code's
+                      \* failed type assertion on it is a panic, recovered for this element alone
+                      /\ errs' = errs + 1 /\ UNCHANGED list
+                      /\ recs' = recs + (IF ReqInline /\ ParentNull(K(i)) THEN 1 ELSE 0)
                  ELSE /\ list' = [list EXCEPT ![i] = Ent(r.n, KeyIdx(r, K(i), i), WIdx(K(i), i), PsOf(K(i), i))]
                       /\ UNCHANGED <<errs, recs>>
   /\ est' = [est EXCEPT ![i] = "done"]
